@@ -4,9 +4,11 @@ package c11
 import (
 	"bytes"
 	"context"
+	"errors"
 	"fmt"
 	"strings"
 	"testing"
+	"time"
 
 	"github.com/hedzr/logg/slog"
 	"github.com/hedzr/logg/slog/verifharness/vlib"
@@ -106,7 +108,11 @@ func classify(p []byte) string {
 	if bytes.Contains(p, []byte("\x1b[")) {
 		accept = append(accept, "colored")
 	} else if !bytes.HasPrefix(p, []byte("{")) {
-		if pairs, err := vlib.ParseLogfmtRecord(p); err == nil && len(pairs) >= 3 && pairs[0].Key == "time" {
+		line := p
+		if k := bytes.IndexByte(p, '\n'); k >= 0 && !vlib.ProductionMode() {
+			line = p[:k+1] // under go test an error value is followed by its multi-line dump (exempt, see C05)
+		}
+		if pairs, err := vlib.ParseLogfmtRecord(line); err == nil && len(pairs) >= 3 && pairs[0].Key == "time" {
 			accept = append(accept, "logfmt")
 		}
 	}
@@ -126,11 +132,24 @@ func (wd *world) checkGetters(t vlib.TB, hist func() string) {
 var probeSevs = []slog.Level{slog.InfoLevel, slog.ErrorLevel, slog.DebugLevel, slog.AlwaysLevel, slog.Level(41), slog.Level(77), slog.Level(-3)}
 var probeCounter int
 
+// attribute lists of the probes (the shape of a record must not depend on the kinds of its values)
+var probeArgs = [][]any{
+	{"k", 1, "s", "v"},
+	{"err", errors.New("plain error")},
+	{"errs", []error{errors.New("e1"), errors.New("e2")}, "none", []error{}},
+	{slog.Group("g", "a", 1, "b", "two"), "after", true},
+	{"t", time.Unix(1700000000, 0).UTC(), "d", 1500 * time.Millisecond, "ts", []time.Time{time.Unix(1, 0).UTC()}},
+	{"nil", nil, "bytes", []byte("raw"), "strs", []string{"a", "b c"}},
+	{"st", struct{ A int }{1}, "m", map[string]int{"x": 1}, "f", 1.5, "c", complex(1, 2)},
+	{},
+}
+
 func (wd *world) probe(t vlib.TB, i int, hist func() string) {
 	before := wd.log.Len()
 	probeCounter++
 	sev := probeSevs[probeCounter%len(probeSevs)]
-	wd.loggers[i].LogAttrs(context.Background(), sev, "format probe", "k", 1, "s", "v")
+	args := probeArgs[probeCounter%len(probeArgs)]
+	wd.loggers[i].LogAttrs(context.Background(), sev, "format probe", args...)
 	evs := wd.log.Snapshot()[before:]
 	if len(evs) != 1 {
 		t.Fatalf("C11 harness: expected one record, got %d", len(evs))
